@@ -239,6 +239,12 @@ def run(ctx):
     with ProcessPoolExecutor(max_workers=12, mp_context=mp.get_context('fork')) as pool:
         res = list(pool.map(_worker, tasks))
         nres = list(pool.map(c04neg._worker, ntasks))
+    # partition key normalisation (Value::to_partition_key on Str / Int keys): props/c04key.py
+    from props import c04key
+    c04key.load(ctx)
+    ctx.bounds['partition_key'] = 'Value::to_partition_key from MIR on a symbolic Str / Int value (all 64 bits of the integer); <i64 as ToString>::to_string is the uninterpreted injective rendering dec(n), any other callee an arbitrary string (a failing obligation is replayed natively on 12 strings and 15 integers incl. negatives and the extremes before it is reported)'
+    ctx.assumptions += ['i64::to_string is injective (std)']
+    c04key.collect(ctx, c04key._worker(('partkey',)))
     binp = None; seen = set()
     for r in nres:
         tgt = 'SaseEngine::check_global_negations'; cls = ' '.join(r['spec'][1:])
